@@ -218,7 +218,9 @@ def check_c12(out, tier):
     pinned_campaigns(out, "C12", mine)
     # the two end points are absolute statements: threshold 0 omits nothing observed, threshold 1 keeps only universal features
     ends = []
-    for c in base_cases(rnd, 60 * k, "c12e"):
+    # (shape-map shapes too: there a shape can be left without any feature that reaches the threshold - no rdf:type line keeps it alive)
+    for c in base_cases(rnd, 60 * k, "c12e") + [gen.fan_case(rnd, "c12ef%d" % i) for i in range(12 * k)] + \
+            [gen.single_constraint_case(rnd, "c12es%d" % i) for i in range(12 * k)]:
         c = with_cfg(c, report="mixed", comments=True)
         ends.append(with_cfg(c, thr=[0, 1]))
         e1 = with_cfg(c, thr=[1, 1])
@@ -487,8 +489,11 @@ def c17_graph(rnd):
             for p in (M.EX + "p", M.EX + "q"):
                 for _ in range(rnd.choice([0, 1, 1, 2])):
                     r = rnd.random()
-                    o = rnd.choice(nodes) if r < .4 else (M.lit("v%d" % rnd.randint(0, 3)) if r < .7 else
-                                                          (M.lit("w%d" % rnd.randint(0, 2), lang="en") if r < .85 else M.bnode("u0")))
+                    o = rnd.choice(nodes) if r < .4 else (M.lit("v%d" % rnd.randint(0, 3)) if r < .6 else
+                                                          (M.lit("w%d" % rnd.randint(0, 2), lang="en") if r < .75 else
+                                                           # values that look like mark-up, a placeholder, an IRI between corners, a number, two lines
+                                                           (M.lit(rnd.choice(["<p>Hello</p>", "<unknown>", "<http://ex.org/items/1>", "33001", "l1\nl2", "a \\ b"]))
+                                                            if r < .88 else M.bnode("u0"))))
                     T.add((n, p, o))
     T = sorted(T, key=str)
     rnd.shuffle(T)
@@ -516,7 +521,17 @@ def _example_id(text, cfg):
     if t.startswith("<") and t.endswith(">"):
         return t[1:-1]
     if t.startswith('"') and t.endswith('"'):
-        return t[1:-1]
+        # a ShExC string: the value it denotes (the line readers keep the escapes of the source, an rdflib-parsed value is printed raw)
+        from harness import shexc
+        inner, out_, i = t[1:-1].replace(shexc.EXAMPLE_LINE_FEED, "\n"), [], 0
+        while i < len(inner):
+            if inner[i] == "\\" and i + 1 < len(inner) and inner[i + 1] in 'nrt"\\':
+                out_.append({"n": "\n", "r": "\r", "t": "\t", '"': '"', "\\": "\\"}[inner[i + 1]])
+                i += 2
+            else:
+                out_.append(inner[i])
+                i += 1
+        return "".join(out_)
     for ns, pre in cfg["nsDict"] + [[cfg["shapesNs"], ""]]:
         if t.startswith(pre + ":"):
             return ns + t[len(pre) + 1:]
@@ -557,7 +572,11 @@ def check_c17(out, tier):
         if r.get("status") == "harness-error":
             raise common.Machinery("harness error: %s\n%s" % (r.get("exc"), r.get("trace", "")))
         if r["status"] != "ok":
-            out.skip("crashed (judged by C04)")
+            # an extraction of the property's own family that gives no output cannot show stems or examples that come from the data
+            if pipeline.known_crash(c, r):
+                out.skip("crashed at a call site recorded as a known finding of C04")
+            else:
+                out.violation("C17.%s:%s@%s" % (r["status"], r.get("exc", ""), r.get("frame", "")), c, "examples / min-IRI run")
             continue
         cfg = c["cfg"]
         T = M.from_json_graph(c["graph"])
